@@ -50,6 +50,11 @@ def run(fb, rep, tier):
     c9_token_lookahead(fb, rep)
     from . import C06
     C06.nonpositive_clock(fb, rep, 'C05.10')
+    # options sent during a multi-threaded search are still applied afterwards (shared with C10.6 / C10.7): otherwise the
+    # next command blocks in waitOptionsSet() - no readyok, no bestmove, no exit
+    from . import C10
+    C10.c6_rearm(fb, rep, clause='C05.11')
+    C10.completion_flag(fb, rep, 'C05.11')
     rep.extra['call_graph'] = {'functions': len(cg.edges), 'thread_roots': [fb.kname(k) + ' <- ' + fb.kname(c) for k, c, _ in cg.thread_roots if R.in_engine(fb.funcs.get(c)) ] if True else []}
     rep.extra['constant_stub_branches_folded'] = sorted({'%s -> %s' % (n, v) for _, _, n, v in fb.folded})
 
